@@ -291,7 +291,7 @@ def check_encode(ctx, F, A):
     if not ok:
         ctx.violation("R-C07-ESC", "encode|counter", where, "the run of consecutive 0x1b bytes written is not confined to 0..3 when the next payload "
                       "byte is fetched (ranges %r): after an inserted escape the count must restart, else longer runs are not escaped"
-                      % ([o["run"] for o in nx][:3],))
+                      % (sorted({(o["run"], bool(o["unresolved"])) for o in nx}, key=str)[:8],))
     other = [o for o in ext if o not in esc and not (o.get("consts") and (tuple(o["consts"]) == tuple(START_SEQ)))]
     # trailer
     ctx.count("R-C07-PAD", 3)
